@@ -1336,3 +1336,100 @@ def run_rtinstall(case: dict) -> Tuple[List[str], Dict[str, int]]:
     if n.operating_state != st_before or _json.dumps(n.describe_state(), sort_keys=True, default=str) != before:
         fails.append(f"refused-requests-changed-the-node|{cls}|{case['target']} ({app} via {case['via']})")
     return fails, hist
+
+
+# ------------------------------------------------------------------------------------------------ the interfaces' own methods, probed
+def iface_probe() -> Dict[str, str]:
+    """REAL interface objects of every class a node carries, standalone (no node) and in a node in each power state, with and
+    without a link, up and down: each translated `enable` / `disable` of the object's MRO is called (the base classes' unbound)
+    and what happened — interface up afterwards, the answer, or that it raised — is keyed like the `table` lines of drv_c12prog.
+    This validates the TRANSLATION (a dereference of a missing node raises, a Node / Link object is truthy, the statements
+    classified inert do not touch `enabled`); it proves nothing about the property."""
+    from primaite.simulator.network.airspace import AirSpace, WirelessNetworkInterface
+    from primaite.simulator.network.hardware.base import IPWiredNetworkInterface, Link, WiredNetworkInterface
+    from primaite.simulator.network.hardware.node_operating_state import NodeOperatingState
+    from primaite.simulator.network.hardware.nodes.host.computer import Computer
+    from primaite.simulator.network.hardware.nodes.host.host_node import NIC
+    from primaite.simulator.network.hardware.nodes.network.router import Router, RouterInterface
+    from primaite.simulator.network.hardware.nodes.network.switch import Switch, SwitchPort
+    from primaite.simulator.network.hardware.nodes.network.wireless_router import WirelessAccessPoint, WirelessRouter
+    from primaite.simulator.network.airspace import IPWirelessNetworkInterface
+    mask = "255.255.255.0"
+    uniq = [0]
+
+    def host(k: int):
+        uniq[0] += 1
+        return Computer.from_config({"type": "computer", "hostname": f"p{uniq[0]}", "ip_address": f"10.7.{k}.{uniq[0] % 200 + 2}", "subnet_mask": mask,
+                                     "start_up_duration": 0, "shut_down_duration": 0})
+
+    def make(kind: str, has_node: bool):
+        """(interface, node or None, a second free interface of the same kind to wire to)"""
+        uniq[0] += 1
+        if kind == "NIC":
+            if has_node:
+                a, b = host(1), host(1)
+                return a.network_interface[1], a, b.network_interface[1]
+            return NIC(ip_address="10.7.2.2", subnet_mask=mask), None, NIC(ip_address="10.7.2.3", subnet_mask=mask)
+        if kind == "SwitchPort":
+            if has_node:
+                a = Switch.from_config({"type": "switch", "hostname": f"p{uniq[0]}a", "num_ports": 2})
+                b = Switch.from_config({"type": "switch", "hostname": f"p{uniq[0]}b", "num_ports": 2})
+                return a.network_interface[1], a, b.network_interface[1]
+            return SwitchPort(), None, SwitchPort()
+        if kind == "RouterInterface":
+            if has_node:
+                a = Router.from_config({"type": "router", "hostname": f"p{uniq[0]}a", "num_ports": 2,
+                                        "ports": {1: {"ip_address": "10.7.3.1", "subnet_mask": mask}}})
+                b = Router.from_config({"type": "router", "hostname": f"p{uniq[0]}b", "num_ports": 2,
+                                        "ports": {1: {"ip_address": "10.7.3.2", "subnet_mask": mask}}})
+                return a.network_interface[1], a, b.network_interface[1]
+            return RouterInterface(ip_address="10.7.3.1", subnet_mask=mask), None, RouterInterface(ip_address="10.7.3.2", subnet_mask=mask)
+        if kind == "WirelessAccessPoint":
+            air = AirSpace()
+            if has_node:
+                a = WirelessRouter.from_config({"type": "wireless-router", "hostname": f"p{uniq[0]}", "router_interface": {"ip_address": "10.7.4.1", "subnet_mask": mask},
+                                                "wireless_access_point": {"ip_address": "10.7.5.1", "subnet_mask": mask, "frequency": "WIFI_2_4"}}, airspace=air)
+                ap = next(i for i in a.network_interfaces.values() if isinstance(i, WirelessAccessPoint))
+                return ap, a, None
+            return WirelessAccessPoint(ip_address="10.7.5.1", subnet_mask=mask, airspace=air), None, None
+        raise ValueError(kind)
+
+    METHODS = {
+        "NIC": [("IPWiredNetworkInterface.enable", IPWiredNetworkInterface.enable), ("WiredNetworkInterface.enable", WiredNetworkInterface.enable),
+                ("WiredNetworkInterface.disable", WiredNetworkInterface.disable), ("IPWiredNetworkInterface.enable", None), ("WiredNetworkInterface.disable", None)],
+        "RouterInterface": [("IPWiredNetworkInterface.enable", None), ("WiredNetworkInterface.disable", None)],
+        "SwitchPort": [("WiredNetworkInterface.enable", None), ("WiredNetworkInterface.disable", None)],
+        "WirelessAccessPoint": [("IPWirelessNetworkInterface.enable", None), ("WirelessNetworkInterface.disable", None),
+                                ("WirelessNetworkInterface.enable", WirelessNetworkInterface.enable), ("IPWirelessNetworkInterface.enable", IPWirelessNetworkInterface.enable)],
+    }
+    out: Dict[str, str] = {}
+    for kind, meths in METHODS.items():
+        code = NIC_KIND[kind]
+        for mname, unbound in meths:
+            for has_node in (False, True):
+                for st in ([None] if not has_node else list(NodeOperatingState)):
+                    for linked in ((False, True) if code != "w" else (True,)):
+                        for en in (False, True):
+                            iface, node, peer = make(kind, has_node)
+                            if linked and peer is not None:
+                                Link(endpoint_a=iface, endpoint_b=peer, bandwidth=100.0)
+                            if node is not None:
+                                node.operating_state = st
+                            iface.enabled = en
+                            if code == "w":
+                                (iface.airspace.add_wireless_interface if en else iface.airspace.remove_wireless_interface)(iface)
+                            hello = 1 if (node is not None and hasattr(node, "default_gateway_hello")) else 0
+                            try:
+                                ans = (unbound(iface) if unbound is not None else getattr(iface, mname.split(".")[1])())
+                                res = "answer=None" if ans is None else f"answer={'true' if ans else 'false'}"
+                            except Exception:
+                                res = "RAISES"
+                            l_after = linked if code == "w" else (iface._connected_link is not None)
+                            after = f"{int(bool(iface.enabled))}{int(l_after)}{code}"
+                            for l_row in ((0, 1) if code == "w" else (int(linked),)):   # the wireless bodies do not read the link
+                                key = f"table {mname} {int(en)}{l_row}{code} {st.name if st is not None else 'None'} {hello}"
+                                val = f"{after[0]}{l_row}{code} {res}"
+                                if out.get(key, val) != val:
+                                    val = out[key] + " / " + val   # two real objects of one context disagree
+                                out[key] = val
+    return out
